@@ -6,6 +6,8 @@ From WW Require Import Prim CPSwap Slippage CP CPInst Router.
 From WW.Proofs Require Import ArithLemmas CPSwapProofs ListLemmas CPProofs SlippageProofs QuotesProofs RouterProofs.
 From WW Require Vault.
 From WW.Proofs Require VaultQuotes.
+From WW Require Stable3 Stable3Pool Stable3Quotes Stable2 Stable2Pool Stable2Quotes.
+From WW.Proofs Require Stable3PoolProofs Stable3QuotesProofs Stable2QuotesProofs.
 
 Theorem C14_pair_simulation_equals_execution : forall s who dir x b m to s' p, reachable s ->
   step the_consts s (Swap who dir x b m to) = Ok (s', p) ->
@@ -46,6 +48,44 @@ Proof.
   - vm_compute. split; reflexivity.
 Qed.
 
+(* Three-asset stableswap pool, all six directions. `swap_exec` is commands::swap as it runs (balance already containing the
+   offer, minus pending fee, minus offer, checked, in the code's order); it IS the pool machine's swap (first theorem), and the
+   quote of `simulate3` (queries::query_simulation, state before the offer) is exactly what it pays, records and burns. *)
+Theorem C14_trio_exec_path_is_pool_swap : forall p i j x ms, 0 <= x ->
+  Stable3Quotes.swap_exec p i j x ms = Stable3Pool.swap p i j x ms.
+Proof. exact Stable3QuotesProofs.swap_exec_is_swap. Qed.
+
+Theorem C14_trio_simulation_equals_execution : forall p i j x ms p' e, 0 <= x -> Stable3PoolProofs.pool_inv p ->
+  Stable3Quotes.swap_exec p i j x ms = Ok (p', e) ->
+  exists s, Stable3Quotes.simulate3 p i j x = Ok s /\
+    Stable3Pool.get3 j (Stable3Pool.e_user e) = s_ret s /\ Stable3Pool.get3 i (Stable3Pool.e_user e) = - x /\
+    Stable3Pool.get3 j (Stable3Pool.e_burned e) = s_burnfee s /\
+    Stable3Pool.get3 j (Stable3Pool.p_fee p') - Stable3Pool.get3 j (Stable3Pool.p_fee p) = s_protfee s /\
+    Stable3Pool.get3 j (Stable3Pool.p_all p') - Stable3Pool.get3 j (Stable3Pool.p_all p) = s_protfee s /\
+    Stable3Pool.get3 j (Stable3Pool.p_burn p') - Stable3Pool.get3 j (Stable3Pool.p_burn p) = s_burnfee s /\
+    Stable3Pool.get3 j (Stable3Pool.p_bal p) - Stable3Pool.get3 j (Stable3Pool.p_bal p') = s_ret s + s_burnfee s /\
+    Stable3Pool.get3 i (Stable3Pool.p_bal p') - Stable3Pool.get3 i (Stable3Pool.p_bal p) = x.
+Proof. exact Stable3QuotesProofs.sim3_eq_exec. Qed.
+
+(* StableSwap pair type, both directions, any pair of decimals (the offer asset selects the pools AND the precisions in both paths) *)
+Theorem C14_stable_pair_exec_path_is_pool_swap : forall p i x ms, 0 <= x ->
+  Stable2Quotes.swap2_exec p i x ms = Stable2Pool.swap2 p i x ms.
+Proof. exact Stable2QuotesProofs.swap2_exec_is_swap2. Qed.
+
+Theorem C14_stable_pair_simulation_equals_execution : forall p i x ms p' e, 0 <= x ->
+  Stable2Quotes.swap2_exec p i x ms = Ok (p', e) ->
+  let j := 1 - i in
+  (i = 0 \/ i = 1) /\
+  exists s, Stable2Quotes.simulate2 p i x = Ok s /\
+    Stable2Pool.get2 j (Stable2Pool.f_user e) = s_ret s /\ Stable2Pool.get2 i (Stable2Pool.f_user e) = - x /\
+    Stable2Pool.get2 j (Stable2Pool.f_burned e) = s_burnfee s /\
+    Stable2Pool.get2 j (Stable2Pool.q_fee p') - Stable2Pool.get2 j (Stable2Pool.q_fee p) = s_protfee s /\
+    Stable2Pool.get2 j (Stable2Pool.q_all p') - Stable2Pool.get2 j (Stable2Pool.q_all p) = s_protfee s /\
+    Stable2Pool.get2 j (Stable2Pool.q_burn p') - Stable2Pool.get2 j (Stable2Pool.q_burn p) = s_burnfee s /\
+    Stable2Pool.get2 j (Stable2Pool.q_bal p) - Stable2Pool.get2 j (Stable2Pool.q_bal p') = s_ret s + s_burnfee s /\
+    Stable2Pool.get2 i (Stable2Pool.q_bal p') - Stable2Pool.get2 i (Stable2Pool.q_bal p) = x.
+Proof. exact Stable2QuotesProofs.sim2_eq_exec. Qed.
+
 (* vault: the Share query equals what a withdrawal of that many shares pays (vault machine of the C05/C06 development) *)
 Theorem C14_vault_share_equals_withdraw : forall u a st st', Vault.withdraw u a st = Ok st' ->
   exists w, Vault.q_share st a = Ok w /\
@@ -62,7 +102,34 @@ Example C14_nonvacuous :
   is_ok (step the_consts s (Swap 1 true 33333 None (Some 500000000000000000) None)) = true.
 Proof. vm_compute. repeat split; reflexivity. Qed.
 
+
+(* non-vacuity for the stable pools: states with a pending protocol fee on the offer asset of the next swap *)
+Definition ex14_trio : option Stable3Pool.pool :=
+  match Stable3Pool.init_pool 1000 100 (mkFees 1000000000000000 3000000000000000 1000000000000000) (false, true, false) 4 with
+  | Ok p => Some (Stable3Pool.run p [Stable3Pool.Provide 0%nat (1000000000, 1000000000, 1000000000); Stable3Pool.Swap 1%nat 0 1 5000000 None])
+  | _ => None end.
+Example C14_trio_nonvacuous :
+  match ex14_trio with
+  | Some p => Stable3Pool.p_fee p = (0, 4999, 0) /\
+              Stable3Quotes.simulate3 p 1 2 7000000 = Ok (mkSwap 6964987 16 20999 6999 6999) /\
+              is_ok (Stable3Quotes.swap_exec p 1 2 7000000 None) = true
+  | None => False end.
+Proof. vm_compute. repeat split; reflexivity. Qed.
+
+Definition ex14_pair2 : Stable2Pool.pool2 :=
+  Stable2Pool.run2 (Stable2Pool.init_pool2 100 (6, 18) (mkFees 1000000000000000 3000000000000000 1000000000000000) (false, true) 4)
+    [Stable2Pool.Provide2 0%nat (1000000000, 1000000000000000000000); Stable2Pool.Swap2 1%nat 0 5000000 None].
+Example C14_stable_pair_nonvacuous :
+  Stable2Pool.q_fee ex14_pair2 = (0, 4999752481435184) /\
+  Stable2Quotes.simulate2 ex14_pair2 1 7000000000000000000 = Ok (mkSwap 6965207 0 21000 7000 7000) /\
+  is_ok (Stable2Quotes.swap2_exec ex14_pair2 1 7000000000000000000 None) = true.
+Proof. vm_compute. repeat split; reflexivity. Qed.
+
 Print Assumptions C14_pair_simulation_equals_execution.
 Print Assumptions C14_router_simulation_equals_execution.
 Print Assumptions C14_refuted_route_revisits_pool.
 Print Assumptions C14_vault_share_equals_withdraw.
+Print Assumptions C14_trio_exec_path_is_pool_swap.
+Print Assumptions C14_trio_simulation_equals_execution.
+Print Assumptions C14_stable_pair_exec_path_is_pool_swap.
+Print Assumptions C14_stable_pair_simulation_equals_execution.
